@@ -197,9 +197,10 @@ End One.
      H2  ~TcpServer is not run while a removeConnectionInLoop hop or a forceCloseInLoop functor
          is queued, and no peer close reaches a connection of a destroyed server before its
          queued connectDestroyed ran (TcpServer.cc "FIXME: unsafe");
-     H3  the state test of a foreign shutdown()/forceClose()/forceCloseWithDelay() that passed
-         still passes at its setState - exactly Conn_Race.set_ok of the x-layer of Conn_Model
-         (C02_H3_is_set_ok / C02_H3_only_set_ok; finding F-19);
+     H3  the setState of a foreign shutdown()/forceClose()/forceCloseWithDelay() whose state test
+         passed does not overwrite kDisconnected (no close came in between: finding F-19).  Weaker than
+         Conn_Race.set_ok of the x-layer of Conn_Model, which also excludes two concurrent foreign
+         shutdown() calls (C02_H3_exact / C02_H3_only_set_ok / C02_H3_beyond_set_ok);
      H4  ~TcpClient only when its connection has no holder besides the client and user
          references, and the user does not drop its last reference to a connection that
          outlived its client while it is still up (finding F-20);
@@ -454,15 +455,17 @@ Theorem C02_proj_def : forall c x, projx c x =
 Proof. exact projx_def. Qed.
 Print Assumptions C02_proj_def.
 
-(* H3 is the race-freedom condition of Conn_Race: a foreign setState accepted under the hypotheses satisfies
-   Conn_Race.set_ok for the corresponding XSet of Conn_Model's x-layer, and is refused only when set_ok fails *)
-Theorem C02_H3_is_set_ok : forall s u a k r s' obs,
-  find_call u (s_calls s) = Some a -> a_stored a = false -> getc s (a_conn a) = Some k -> creq_of (a_api a) = Some r ->
-  step true s (XStore u) = Ok (s', obs) ->
-  forall cm reqs tm, st cm = k_st k ->
-  Conn_Race.set_ok (mkX cm (mkReq u r (a_loaded a) false :: reqs) tm) (Conn_Model.XSet u).
-Proof. exact S02_H3_is_set_ok. Qed.
-Print Assumptions C02_H3_is_set_ok.
+(* H3 and Conn_Race.set_ok.  Under the hypotheses a foreign setState (XStore) is refused exactly when its state test had passed
+   and the store would overwrite kDisconnected (the resurrection of F-19).  That is weaker than Conn_Race.set_ok of Conn_Model's
+   x-layer ("the request's state test still passes" - compared with the CURRENT state, whoever changed it): set_ok implies that
+   the step is accepted unchanged, and an accepted step that is not set_ok is a shutdown() whose store finds kDisconnecting
+   (a second concurrent foreign shutdown(), or a forceClose() in between): benign, and inside the theorems of Part 2 *)
+Theorem C02_H3_exact : forall s u a k,
+  find_call u (s_calls s) = Some a -> a_stored a = false -> getc s (a_conn a) = Some k -> is_dtor (a_api a) = false ->
+  (step true s (XStore u) = Rejected <-> (a_loaded a = true /\ k_st k = Disconnected)) /\
+  (step true s (XStore u) <> Rejected -> step true s (XStore u) = step false s (XStore u)).
+Proof. exact S02_H3_exact. Qed.
+Print Assumptions C02_H3_exact.
 
 Theorem C02_H3_only_set_ok : forall s u a k r cm reqs tm,
   find_call u (s_calls s) = Some a -> a_stored a = false -> getc s (a_conn a) = Some k -> creq_of (a_api a) = Some r ->
@@ -470,6 +473,23 @@ Theorem C02_H3_only_set_ok : forall s u a k r cm reqs tm,
   step true s (XStore u) = step false s (XStore u).
 Proof. exact S02_H3_only_set_ok. Qed.
 Print Assumptions C02_H3_only_set_ok.
+
+Theorem C02_H3_beyond_set_ok : forall s u a k r s' obs,
+  find_call u (s_calls s) = Some a -> a_stored a = false -> getc s (a_conn a) = Some k -> creq_of (a_api a) = Some r ->
+  k_st k <> Connecting -> step true s (XStore u) = Ok (s', obs) ->
+  forall cm reqs tm, st cm = k_st k ->
+  Conn_Race.set_ok (mkX cm (mkReq u r (a_loaded a) false :: reqs) tm) (Conn_Model.XSet u) \/
+  (a_loaded a = true /\ a_api a = AShutdown /\ k_st k = Disconnecting).
+Proof. exact S02_H3_beyond_set_ok. Qed.
+Print Assumptions C02_H3_beyond_set_ok.
+
+(* two threads call shutdown() at the same time: accepted under the hypotheses (the second store finds kDisconnecting), one UP,
+   no DOWN yet, the connection half-closed once *)
+Example ex_two_foreign_shutdowns : exists s o k, run true (init_sys 0 false)
+    [Accept; XBegin 1 0 AShutdown; XBegin 2 0 AShutdown; XStore 1; XStore 2; XEnq 1 true; XEnq 2 true;
+     Swap 0; Run 0 true true; Run 0 true true; EndBatch 0] = Ok (s, o) /\
+  o = [OUp 0 0] /\ getc s 0 = Some k /\ k_st k = Disconnecting /\ k_fin k = true /\ k_downs k = 0.
+Proof. vm_compute. eexists _, _, _. repeat split. Qed.
 
 (* ---- the generated facts the model builds in -------------------------------------------------- *)
 Theorem C02_gen_tie :
